@@ -415,3 +415,73 @@ def check_C13(tier, seed):
                             "it with the plain-tree model after each step (clone unaffected by later mutation)")
     generic_record_validate("C13", res, "lz-record", ["--seed", seed, "--n", 6000 if tier == QUICK else 200000], "Trace_Lazy", {}, "lazy")
     return res.finish()
+
+
+def check_C18(tier, seed):
+    res = Result("C18", tier, seed, "model_checking")
+    res.coverage["rule"] = ("TLC explores every interleaving of 2-3 threads running {as_str / get, clone+drop} on one shared lazy value at the granularity of the atomic operations on "
+                            "the shared cell, with the compare-exchange primitive the code is observed to use (probe through the shim); invariants: no null/dangling dereference, all "
+                            "readers agree, one survivor, everything released exactly once. Every maximal schedule is replayed on real threads under the controlled scheduler (hook H3), "
+                            "checking the values each thread observed and that the heap returns to its level after the owner drops the value")
+    exe = build_harness()
+    rc, o, err = run_vh(exe, ["lc-probe"])
+    if rc != 0:
+        res.add_mismatch({"suite": "lc-probe", "class": "crash", "why": "probe died rc=%s %s" % (rc, err[-300:])})
+        return res.finish()
+    prims = json.loads(o.strip().splitlines()[-1])
+    res.coverage["primitive_observed"] = prims
+    progsets = [("read", "read", None), ("read", "clone", None), ("read", "read", "read"), ("read", "read", "clone"), ("read", "clone", "clone")]
+    if tier == QUICK:
+        progsets = progsets[:4]
+    d = wdir("beh")
+    for variant in ("lazy", "owned"):
+        pv = prims.get(variant)
+        weak = isinstance(pv, list) and "CasWeak" in pv
+        if not isinstance(pv, list):
+            res.add_mismatch({"suite": "lc-probe", "class": "sched", "variant": variant, "why": "probe schedule load;cas not realisable: %s" % pv})
+            continue
+        for ps in progsets:
+            threads = '{"t1", "t2"}' if ps[2] is None else '{"t1", "t2", "t3"}'
+            tag = "%s_%s_%s" % (variant, "".join(p[0] for p in ps if p), "weak" if weak else "strong")
+            beh = os.path.join(d, "lc_%s.ndjson" % tag)
+            consts = {"Threads": threads, "P1": '"%s"' % ps[0], "P2": '"%s"' % ps[1], "P3": '"%s"' % (ps[2] or "read"), "WeakCas": "TRUE" if weak else "FALSE", "EmitOn": "TRUE"}
+            if weak:
+                st = tlc_mc("MC_LazyCache", consts, emit_path=beh, tag="MC_LazyCache_" + tag, cfg=os.path.join(vlib.TLA, "MC_LazyCache_weak.cfg"), workers=4)
+                n = vlib.count_lines(beh)
+                if n:
+                    first = json.loads(open(beh).readline())
+                    res.add_mismatch({"suite": "lc-mc", "class": "mc", "variant": variant, "prog": ps, "sched": first["sched"],
+                                      "why": "the code publishes the %s cache with compare_exchange_weak: in the model with spurious failure %d schedules dereference the null witness "
+                                             "(NoBadDeref violated), e.g. %s" % (variant, n, json.dumps(first["sched"]))})
+            else:
+                st = tlc_mc("MC_LazyCache", consts, emit_path=beh, tag="MC_LazyCache_" + tag, workers=4)
+            res.coverage["states"] += st["distinct"]
+            res.coverage["transitions"] += st["states"]
+            out = fresh("C18", "lc_" + tag)
+            infl = os.path.join(out, "inflight")
+            skip = 0
+            while True:
+                rc, o, err = run_vh(exe, ["lc-replay", "--beh", beh, "--variant", variant, "--out", out, "--skip-to", skip], inflight=infl, timeout=1200)
+                if rc == 0:
+                    break
+                cid, hx = read_inflight(infl)
+                if cid is None or (rc > 0 and rc not in (101, 134)):
+                    raise ToolError("lc-replay failed rc=%s %s" % (rc, err[-500:]))
+                line = bytes.fromhex(hx).decode("utf-8", "replace")
+                res.add_mismatch({"suite": "lc-replay", "class": "crash", "variant": variant, "prog": ps, "rc": rc, "schedule_line": line,
+                                  "why": "process died (rc %s) while replaying schedule %s of %s: %s" % (rc, cid, tag, line[:300])})
+                skip = cid + 1
+                if skip > 5000 or len(res.violations) > 30:
+                    break
+            sp = os.path.join(out, "summary.0.json")
+            if os.path.exists(sp):
+                summ = json.load(open(sp))
+                for m in summ["mismatches"]:
+                    res.add_mismatch(m)
+                res.coverage["evaluations"] += summ["schedules"]
+                res.coverage["traces_validated_against_impl"] += summ["schedules"]
+                res.coverage["samples"] += summ["samples"][:1]
+                res.coverage.setdefault("replay", {})[tag] = {k: summ[k] for k in ("schedules", "injected", "prims")}
+    res.coverage["distinct_nontrivial"] = res.coverage["traces_validated_against_impl"]
+    res.coverage["exhaustive"] = True
+    return res.finish()
